@@ -304,3 +304,12 @@ Theorem C14_cas_is_db_cas : forall d v self old tick,
     ElectionDBProofs.rec_open d'.
 Proof. exact ElectionDBProofs.cas_is_kv_update. Qed.
 Print Assumptions C14_cas_is_db_cas.
+
+(** why [1 <= thr] is a hypothesis of [C14_stable]: with deadLeaderMinRound = 0 a
+    follower that moves after the leader in one round and before it in the next
+    sees the record unchanged once and already campaigns (and wins). *)
+Example C14_ex_thr0_unstable :
+  let y1 := sys_turn 0 nofault (new_sys [7; 9; 4]) 1 in
+  let y' := run_sched 0 (concat [[1; 0]; [0; 1]])%nat y1 in
+  holder (y_rec y1) = Some 9 /\ holder (y_rec y') = Some 7.
+Proof. vm_compute. split; reflexivity. Qed.
